@@ -231,7 +231,7 @@ fn run_unary(cx: &mut CaseCx, case: &Value) {
   unary_checks(cx, a, &ra);
   cx.nontrivial(fnv_str(&a.to_string()));
   if i == 1 {
-    cx.sample(json!({"a": a.to_string(), "invert": fp_to_big(&ra.invert().unwrap()).to_string()}));
+    cx.sample(json!({"a": a.to_string(), "invert": Option::<Fp>::from(ra.invert()).map(|r| fp_to_big(&r).to_string())}));
   }
 }
 
@@ -274,8 +274,8 @@ fn level1(seeds: &[(Fp, BigUint)]) -> Vec<(Fp, BigUint)> {
     out.insert(rm::negm(a), -*ra);
     out.insert(rm::addm(a, a), ra.double());
     out.insert(rm::mulm(a, a), ra.square());
-    if let Some(w) = rm::invm(a) {
-      out.insert(w, ra.invert().unwrap());
+    if let (Some(w), Some(r)) = (rm::invm(a), Option::<Fp>::from(ra.invert())) {
+      out.insert(w, r);
     }
     for (rb, b) in seeds {
       out.insert(rm::addm(a, b), *ra + *rb);
@@ -307,9 +307,17 @@ fn run_closure(cx: &mut CaseCx, case: &Value) {
   }
   cmp(cx, "-a (depth 2)", "closure/neg", &(-*ra), &rm::negm(a), || d(a));
   cmp(cx, "square (depth 2)", "closure/square", &ra.square(), &rm::mulm(a, a), || d(a));
-  if let Some(w) = rm::invm(a) {
-    cmp(cx, "invert (depth 2)", "closure/invert", &ra.invert().unwrap(), &w, || d(a));
+  match (rm::invm(a), Option::<Fp>::from(ra.invert())) {
+    (Some(w), Some(r)) => cmp(cx, "invert (depth 2)", "closure/invert", &r, &w, || d(a)),
+    (None, None) => {}
+    (w, r) => cx.viol("C07/closure/invert-domain", format!("invert of the depth-1 state {} defined={} but model defined={}", a, r.is_some(), w.is_some()), d(a)),
   }
+  cx.eval();
+  if ra.is_zero_vartime() != a.is_zero() || bool::from(ra.is_zero()) != a.is_zero() {
+    cx.viol("C07/closure/is_zero", format!("is_zero of the depth-1 state {} wrong", a), d(a));
+  }
+  cmp(cx, "0 - a (depth 2)", "closure/zero-minus", &(Fp::ZERO - *ra), &rm::negm(a), || d(a));
+  cmp(cx, "double (depth 2)", "closure/double", &ra.double(), &rm::addm(a, a), || d(a));
   cx.nontrivial(fnv_str(&a.to_string()));
 }
 
@@ -448,8 +456,8 @@ fn run_sampled(cx: &mut CaseCx, case: &Value) {
     cmp(cx, "a+b", "binop/add", &(ra + rb), &rm::addm(&a, &b), d);
     cmp(cx, "a-b", "binop/sub", &(ra - rb), &rm::subm(&a, &b), d);
     cmp(cx, "a*b", "binop/mul", &(ra * rb), &rm::mulm(&a, &b), d);
-    if let Some(w) = rm::invm(&a) {
-      cmp(cx, "invert(a)", "unary/invert", &ra.invert().unwrap(), &w, d);
+    if let (Some(w), Some(r)) = (rm::invm(&a), Option::<Fp>::from(ra.invert())) {
+      cmp(cx, "invert(a)", "unary/invert", &r, &w, d);
     }
     cx.count("sampled_pairs", 1);
   }
